@@ -2,18 +2,23 @@ package parser
 
 import (
 	"bytes"
+	"regexp"
 
 	"golang.org/x/net/html"
 
 	"github.com/titpetric/vuego/internal/helpers"
 )
 
+// htmlEndTag matches the end tag of the html element the way an HTML parser reads it:
+// tag names are case-insensitive and whitespace may precede the closing bracket.
+var htmlEndTag = regexp.MustCompile(`(?i)</html[ \t\n\f\r]*>`)
+
 // ParseTemplateBytes parses template bytes into HTML nodes, handling both full documents and fragments.
 // If the content contains a full HTML document (</html> tag), it uses html.Parse.
 // Otherwise, it parses as a fragment using a cached body element.
 func ParseTemplateBytes(templateBytes []byte) ([]*html.Node, error) {
 	// Check if input template contains html/body
-	if bytes.Contains(templateBytes, []byte("</html>")) {
+	if htmlEndTag.Match(templateBytes) {
 		doc, err := html.Parse(bytes.NewReader(templateBytes))
 		if err != nil {
 			return nil, err
